@@ -1,0 +1,52 @@
+//go:build verif
+
+// Contracts for expand_message_xmd (RFC 9380 5.3.1), comment-only. The hash object is the interface value
+// returned by sha256.New (an opaque call); its methods follow the assumed contracts of hash.Hash stated here
+// (digest size 32, block size 64, Write never fails, Sum appends one digest to a fresh slice). What is hashed is
+// not modelled: the clauses are totality (every slice, index and make operation is a discharged obligation),
+// the length of the output, and "an error is returned exactly for inadmissible parameters"
+// (ell = ceil(len_in_bytes / 32) > 255, len(DST) > 255, negative length).
+
+package hash
+
+//@ func (hash.Hash).Size
+//@ assumed interface hash.Hash as returned by sha256.New: the digest size of SHA-256 is 32 bytes
+//@ ensures result == 32
+//@ end
+
+//@ func (hash.Hash).BlockSize
+//@ assumed interface hash.Hash as returned by sha256.New: the block size of SHA-256 is 64 bytes
+//@ ensures result == 64
+//@ end
+
+//@ func (hash.Hash).Reset
+//@ assumed interface hash.Hash: Reset touches only the hash object
+//@ end
+
+//@ func (hash.Hash).Write
+//@ assumed interface hash.Hash (io.Writer): Write reads p, touches only the hash object and never returns an error
+//@ ensures isnil(result1) && result0 == len(p)
+//@ end
+
+//@ func (hash.Hash).Sum
+//@ assumed interface hash.Hash: Sum appends the 32-byte digest to b and returns the resulting slice (fresh for b == nil)
+//@ ensures len(result) == len(b) + 32
+//@ end
+
+//@ func min
+//@ option inline
+//@ ensures result == min(a, b)
+//@ end
+
+//@ func ExpandMsgXmd
+//@ option opaque New
+//@ option fresh-loop-slices
+//@ loop 0
+//@ + invariant[blocks] 2 <= i && i <= max(ell, 1) + 1 && ell == (lenInBytes + 31) / 32 && 0 <= lenInBytes && lenInBytes <= 8160 && len(res) == lenInBytes && len(b0) == 32 && len(b1) == 32 && len(dst) <= 255
+//@ loop 1
+//@ + invariant[xor] 0 <= j && j <= 32 && len(strxor) == 32 && len(b0) == 32 && len(b1) == 32
+//@ ensures[length] isnil(result1) ==> len(result0) == lenInBytes
+//@ ensures[accepted] isnil(result1) ==> 0 <= lenInBytes && lenInBytes <= 8160 && len(dst) <= 255
+//@ ensures[refused] !isnil(result1) ==> lenInBytes < 0 || lenInBytes > 8160 || len(dst) > 255
+//@ modifies nothing
+//@ end
